@@ -267,6 +267,25 @@ def shared_alias_mutations(fn, module_names):
             root = alias[tgt][0][0]
             out.append(('%s aliases an entry of the shared table %s (%s) and is then changed in place (%s): the change stays in the table '
                         'for every later call' % (tgt, root, stmt_key(alias[tgt][0][1]), stmt_key(n)), n))
+    # the same without a local name for the row: SHARED[k][f] = v / SHARED[k].append(v) - an element of an element of a shared table
+    for n in ast.walk(fn):
+        tg = []
+        if isinstance(n, (ast.Assign, ast.AugAssign)):
+            tg = [t for t in (n.targets if isinstance(n, ast.Assign) else [n.target])]
+            tg = [x for t in tg for x in (t.elts if isinstance(t, (ast.Tuple, ast.List)) else [t])]
+        elif isinstance(n, ast.Call) and isinstance(n.func, ast.Attribute) and n.func.attr in MUTATORS:
+            tg = [ast.Subscript(value=n.func.value, slice=ast.Constant(value=0), ctx=ast.Store())] if isinstance(n.func.value, ast.Subscript) else []
+        for t in tg:
+            if isinstance(t, ast.Subscript) and isinstance(t.value, ast.Subscript):
+                b = t.value
+                depth = 1
+                while isinstance(b, ast.Subscript):
+                    b = b.value
+                    depth += 1
+                if isinstance(b, ast.Name) and b.id in shared and depth >= 2 and b.id not in {x.id for x in ast.walk(fn) if isinstance(x, ast.Name)
+                                                                                           and isinstance(x.ctx, ast.Store) and b.id not in gdecl}:
+                    out.append(('a row of the shared table %s is changed in place (%s): the change stays in the table for every later call'
+                                % (b.id, stmt_key(n)), n))
     return out
 
 
